@@ -76,6 +76,7 @@ def describe (s : St) : Tid → String
       | .lockRel => "lock.release"
       | .putBlock => "resQ.put " ++ showItem "c" w.held
       | .retire => s!"replQ.put {wid}"
+      | .ending => s!"end W{wid}"
 
 def poolDigest (s : St) : String :=
   let q (tag : String) (l : List (Option Nat)) := joinWith "," (l.map (showItem tag))
@@ -114,12 +115,15 @@ def poolStep (s : St) (ws : List String) : St × String :=
   | "cfg" :: n :: wc :: rc :: fac :: quota :: ready :: rest0 =>
     -- optional token `rm:1` anywhere after the fixed fields: `until_all_ready()` in the middle of every call (`Cfg.readyMid`)
     let rm := rest0.contains "rm:1"
-    let rest := rest0.filter (fun w => !(w.startsWith "rm:"))
+    -- optional token `jt:1`: the pool has a finite `join_timeout` (`Cfg.joinTimeout`)
+    let jt := rest0.contains "jt:1"
+    let rest := rest0.filter (fun w => !(w.startsWith "rm:") && !(w.startsWith "jt:"))
     match n.toNat?, optNat wc, optNat rc, optNat quota, parseCalls (sectionOf rest "calls:"),
           parseNats (sectionOf rest "bf:"), parsePairsColon (sectionOf rest "if:") with
     | some n, some wc, some rc, some quota, some calls, some bf, some itf =>
       let cfg : Cfg := { nWorkers := n, workCap := wc, resCap := rc, factory := fac == "1", quota := quota,
-                         waitReady := ready == "1", calls := calls, beginFault := bf, itemFault := itf, readyMid := rm }
+                         waitReady := ready == "1", calls := calls, beginFault := bf, itemFault := itf, readyMid := rm,
+                         joinTimeout := jt }
       (init cfg, "ok")
     | _, _, _, _, _, _, _ => (s, "bad-op")
   | ["step", t] => match parseTid t with
@@ -141,6 +145,6 @@ def poolStep (s : St) (ws : List String) : St × String :=
   | _ => (s, "bad-op")
 
 def poolMachine : Machine :=
-  { σ := St, init := init ⟨1, none, none, false, none, false, [], [], [], false⟩, step := poolStep }
+  { σ := St, init := init ⟨1, none, none, false, none, false, [], [], [], false, false⟩, step := poolStep }
 
 end WindVerif.Drv
